@@ -308,6 +308,8 @@ func StartCPUGuard(c *Ctx, onSpin func()) {
 	go func() {
 		var (
 			watched   int64 = -1
+			lastTick  int64
+			tickCPU   int64 // CPU consumed by the process when the monitors last recorded something
 			idleSince time.Time
 			idleCPU   int64
 		)
@@ -329,20 +331,23 @@ func StartCPUGuard(c *Ctx, onSpin func()) {
 				watched = -1
 				continue
 			}
-			now, cpu := time.Now(), cpuMillis()
-			if seq != watched || externalWaits.Load() > 0 || cpu-idleCPU > 500 {
-				watched, idleSince, idleCPU = seq, now, cpu
+			now, cpu, ticks := time.Now(), cpuMillis(), ev.Ticks.Load()
+			if seq != watched || ticks != lastTick {
+				// the case has just begun, or its monitors have recorded something since we last looked: it is alive
+				watched, lastTick, tickCPU, idleSince, idleCPU = seq, ticks, cpu, now, cpu
 			}
-			used := cpu - guardStartCPU.Load()
+			if externalWaits.Load() > 0 || cpu-idleCPU > 500 {
+				idleSince, idleCPU = now, cpu
+			}
 			if guardSeq.Load() != seq {
 				continue
 			}
-			if used > budget {
-				report("has consumed %d CPU-seconds of this process without finishing (cases of this check take milliseconds to seconds of CPU)", used)
+			if used := cpu - tickCPU; used > budget {
+				report("has consumed %d CPU-seconds of this process since its monitors last recorded anything (they record after nearly every call into the library, and no single call of this check takes more than a few seconds of CPU)", used)
 				return
 			}
 			if now.Sub(idleSince) > idleLimit {
-				report("is unfinished while the process, which is not waiting for any child process, has consumed less than half a CPU-second in the last "+idleLimit.String()+" (%d CPU-seconds since the case began): every goroutine is blocked", used)
+				report("has not finished, and since its monitors last recorded anything ("+idleLimit.String()+" ago or more) the process, which is not waiting for any child process, has consumed less than half a CPU-second (%d CPU-seconds in all since then): every goroutine is blocked", cpu-tickCPU)
 				return
 			}
 		}
